@@ -31,7 +31,14 @@ RULE = (
     "default / explicit / permissive (abstract, base) / restrictive (subclass) / unrelated ballot_type arguments and validation on/off, "
     "interleaved inserting operations (append, insert, extend, +=, |=, update, setdefault, item assignment, constructor initialiser) "
     "offering ballots of 4 kinds x mutable/frozen x plain/subclass; all histories of a run executed in order in one fresh process; "
-    "each step judged against the ballot_type its own profile was created with"
+    "each step judged against the ballot_type its own profile was created with; third stream 'derivation histories': the same "
+    "histories with, besides the inserting operations, derivations of a new object from a profile of the history (copy.copy, "
+    "copy.deepcopy, pickle protocols 2-5, .copy(), construction from the object, slicing, list operators + * with lists / a profile of "
+    "the same class with other attributes / itself, Counter operators + - | & unary +): the derivation must succeed and give the same "
+    "class with the same attributes (ballot_type, ballot_validation, instance, legal limits) and no ballot outside the profile's own "
+    "ballot_type; the derived object joins the history (later insertions and derivations apply to it); in the main stream 35 % of the "
+    "source profiles / multiprofiles are created with the abstract ballot class of their kind as ballot_type and, list profiles, hold "
+    "frozen and mutable ballots side by side"
 )
 ASSUMPTIONS = [
     "source = the object whose method is invoked (methods are called by name: x.__or__(y), x.__getitem__(slice), ...)",
@@ -154,6 +161,9 @@ class World:
 
         self.e = e
         self.rng = rng
+        # second generator, a function of the first one's seed state that does not advance it: decisions added to the fixtures later
+        # draw from it, so that the operation sequences of the existing stream stay what they were
+        self.aux = random.Random(repr(rng.getstate()[1][:8]))
         self.projects = [e.Project("p%d" % i, rng.choice([1, 2, 3, 5])) for i in range(8)]
         self.inst = self.instance(0)
         self.inst2 = self.instance(1)
@@ -229,7 +239,13 @@ def make(w: World, name, variant=0):
         if variant:
             kw = {k: v + 1 for k, v in kw.items()}
         frozen = name in MULTI_PROFILES
-        bs = [w.ballot(kind, frozen) for _ in range(rng.randint(0, 4))]
+        # a third of the source profiles is created with a ballot_type other than the class default (the abstract class of the kind:
+        # the ballots offered by `element` stay right, those of `wrong_ballot` stay wrong); a list profile then holds frozen and
+        # mutable ballots side by side
+        abstract = variant == 0 and w.aux.random() < 0.35
+        if abstract:
+            kw["ballot_type"] = getattr(e, "Abstract" + {v: k for k, v in KIND.items()}[kind] + "Ballot")
+        bs = [w.ballot(kind, frozen or (abstract and w.aux.random() < 0.5)) for _ in range(rng.randint(0, 4))]
         if bs and rng.random() < 0.5:
             bs.append(bs[0])
         validation = rng.random() < (0.85 if variant == 0 else 0.5)
@@ -596,14 +612,33 @@ def _v_ballot_spec(r, bias_kind):
     return {"kind": kind, "frozen": r.random() < 0.5, "sub": r.random() < 0.2, "tag": r.randint(0, 5)}
 
 
-def gen_vhistory(rng: random.Random):
+# derivations named by the statement ("set/list/dict operators, slicing, copy, deep copy, pickling, construction from another
+# object"), applied to the profiles of a history: the derived object is a further profile of the history (same specification), so
+# later steps insert into it and derive from it again
+V_LIST_DERIVE = ["copy.copy", "copy.deepcopy", "pickle", "copy", "construct", "slice", "__add__", "__mul__", "__rmul__", "__imul__"]
+V_MULTI_DERIVE = ["copy.copy", "copy.deepcopy", "pickle", "copy", "construct", "__add__", "__sub__", "__or__", "__and__", "__pos__"]
+
+
+def gen_vhistory(rng: random.Random, derive=False):
     sub = rng.getrandbits(48)
     r = random.Random(sub)
     kind = r.choice(V_KINDS)
     multi = r.random() < 0.5
     steps = []
     profiles = []  # (kind, multi)
-    for k in range(r.randint(3, 12)):
+    for k in range(r.randint(4, 14) if derive else r.randint(3, 12)):
+        if derive and profiles and r.random() < 0.4:
+            i = r.randrange(len(profiles))
+            pk, pm = profiles[i]
+            bs = [_v_ballot_spec(r, pk) for _ in range(r.randint(0, 2))]
+            if pm:
+                for b in bs:
+                    b["frozen"] = True
+            keep = len(profiles) < 8  # the derived object becomes profile number len(profiles) of the history
+            steps.append({"op": "derive", "p": i, "how": r.choice(V_MULTI_DERIVE if pm else V_LIST_DERIVE), "ballots": bs, "arg": r.randint(0, 5), "as": r.choice(["plain", "same", "self"]), "keep": keep})
+            if keep:
+                profiles.append((pk, pm))
+            continue
         if not profiles or (len(profiles) < 4 and r.random() < 0.3):
             pk, pm = (kind, multi) if r.random() < 0.8 else (r.choice(V_KINDS), r.random() < 0.5)
             bt = r.choice(V_BT_LIST)
@@ -624,12 +659,29 @@ def gen_vhistory(rng: random.Random):
             for b in bs:
                 b["frozen"] = True
         steps.append({"op": op, "p": i, "ballots": bs, "arg": r.randint(0, 3), "as": r.choice(["list", "tuple", "iter"])})
-    return {"seed": sub, "steps": steps}
+    h = {"seed": sub, "steps": steps}
+    if derive:
+        h["derive"] = True
+    return h
+
+
+def _vprofile_specs(h):
+    """specification ("new" step) of every profile of the history, in the order in which the worker numbers them"""
+    specs = []
+    for s in h["steps"]:
+        if s["op"] == "new":
+            specs.append(s)
+        elif s["op"] == "derive" and s["keep"]:
+            specs.append(specs[s["p"]])
+    return specs
 
 
 def vhistory_nontrivial(h):
-    """two validating profiles of one class with different ballot types are both offered a ballot of the same class"""
-    profs = [s for s in h["steps"] if s["op"] == "new"]
+    """two validating profiles of one class with different ballot types are both offered a ballot of the same class; derivation
+    histories: a validating profile created with a ballot_type argument other than the class default is derived from"""
+    profs = _vprofile_specs(h)
+    if h.get("derive"):
+        return any(s["op"] == "derive" and profs[s["p"]]["validation"] is not False and profs[s["p"]]["bt"] not in ("default", "own") for s in h["steps"])
     offered = {}
     for s in h["steps"]:
         if s["op"] != "new":
@@ -657,7 +709,11 @@ class VWorld:
         if not sub:
             return cls
         if name not in self.subs:
-            self.subs[name] = type("Sub" + name, (cls,), {})
+            import sys
+
+            sub = type("Sub" + name, (cls,), {})
+            setattr(sys.modules[sub.__module__], sub.__name__, sub)  # reachable by name: pickle stores classes by reference
+            self.subs[name] = sub
         return self.subs[name]
 
     def ballot_type(self, kind, multi, bt):
@@ -718,6 +774,14 @@ def run_vhistory(w: VWorld, h):
             counts.append(("ballot_type_arg", st["bt"]))
             target, op, eff = None, "new", bs
             thunk = lambda: pcls(bs, **kw)  # noqa: E731
+        elif st["op"] == "derive":
+            target, spec, T = profs[st["p"]]
+            if target is None:
+                if st["keep"]:
+                    profs.append((None, spec, T))
+                continue
+            run_vderive(w, k, st, target, spec, T, profs, v, counts)
+            continue
         else:
             target, spec, T = profs[st["p"]]
             if target is None:
@@ -791,6 +855,89 @@ def run_vhistory(w: VWorld, h):
     return viol, counts
 
 
+def run_vderive(w: VWorld, k, st, target, spec, T, profs, v, counts):
+    """one derivation of a new object from profile `target` (created with ballot type T): it must succeed, give an object of the
+    same class with the same election attributes - ballot_type and ballot_validation among them - and, validation on, hold no
+    ballot outside T.  Operands of the operators hold ballots of T only when the profile validates (anything else may rightly be
+    refused; that is the business of the inserting steps)."""
+    e = w.e
+    validated = spec["validation"] is not False
+    multi = spec["multi"]
+    how, n = st["how"], st["arg"]
+    pcls = type(target)
+    call = pcls.__name__ + "." + how
+    bs = [w.ballot(b) for b in st["ballots"]]
+    if validated:
+        bs = [b for b in bs if isinstance(b, T)]
+    if st["as"] == "self":
+        other = target
+    elif st["as"] == "same":
+        # an object of the same class with its own attributes: validation off, default ballot type, no instance
+        other = pcls(bs, ballot_validation=False)
+    else:
+        other = Counter({b: 1 + n % 3 for b in bs}) if multi else list(bs)
+    if how == "copy.copy":
+        thunk = lambda: copy.copy(target)  # noqa: E731
+    elif how == "copy.deepcopy":
+        thunk = lambda: copy.deepcopy(target)  # noqa: E731
+    elif how == "pickle":
+        proto = [2, 3, 4, pickle.HIGHEST_PROTOCOL, 2, 4][n]
+        thunk = lambda: pickle.loads(pickle.dumps(target, protocol=proto))  # noqa: E731
+    elif how == "copy":
+        thunk = lambda: target.copy()  # noqa: E731
+    elif how == "construct":
+        thunk = lambda: pcls(target)  # noqa: E731
+    elif how == "slice":
+        sl = [slice(None), slice(0, 1), slice(1, None), slice(None, None, -1), slice(None, None, 2), slice(-2, None)][n]
+        thunk = lambda: target[sl]  # noqa: E731
+    elif how in ("__mul__", "__rmul__", "__imul__"):
+        thunk = lambda: getattr(target, how)(n % 3)  # noqa: E731
+    elif how == "__pos__":
+        thunk = lambda: +target  # noqa: E731
+    else:  # binary operators of list / Counter
+        thunk = lambda: getattr(target, how)(other)  # noqa: E731
+    counts.append(("v_derive", how))
+    default = w.ballot_class(spec["kind"], multi)
+    outside = any(not isinstance(b, default) for b in target)
+    if validated and T is not default:
+        counts.append(("v_derive_source", "validating, non-default ballot_type, " + ("holds a ballot outside the class-default type" if outside else "only ballots of the class-default type")))
+    else:
+        counts.append(("v_derive_source", "validating, default ballot_type" if validated else "validation off"))
+    before = attrs_snapshot(target)
+    res, raised = None, None
+    try:
+        res = thunk()
+    except Exception as ex:  # noqa: BLE001
+        raised = ex
+    if raised is not None:
+        v(k, call, "derive_raised", f"{call} of a {'validating ' if validated else ''}{pcls.__name__} created with ballot_type {T.__name__} holding {sorted({type(b).__name__ for b in target})} raised {type(raised).__name__}: {raised}", impl=repr(raised)[:200], expected="a " + pcls.__name__)
+        res = None
+    elif res is NotImplemented:
+        res = None
+    else:
+        if diff(before, attrs_snapshot(target)):
+            v(k, call, "derive_source_attrs", f"{call} changed the attributes of the profile it was applied to", impl=brief(diff(before, attrs_snapshot(target))))
+        if type(res) is not pcls:
+            v(k, call, "derive_type", f"{call} returned a {type(res).__name__}", impl=type(res).__name__, expected=pcls.__name__)
+            res = None
+        else:
+            ra = attrs_snapshot(res)
+            d = (("names", sorted(before), sorted(ra)) if set(ra) != set(before) else diff(before, ra))
+            if d:
+                v(k, call, "derive_attrs", f"{call}: attribute {d[0]} of the derived {pcls.__name__} differs from the source (ballot_type {T.__name__}, validation {validated})", impl=brief(d[2]), expected=brief(d[1]))
+            if res.ballot_type is not T or bool(res.ballot_validation) != validated:
+                if not d:
+                    v(k, call, "derive_attrs", f"{call}: derived profile has ballot_type {getattr(res.ballot_type, '__name__', res.ballot_type)}, validation {res.ballot_validation}; source {T.__name__}, {validated}")
+                res.ballot_type, res.ballot_validation = T, validated
+            if validated:
+                bad = [b for b in res if not isinstance(b, T)]
+                if bad:
+                    v(k, call, "validation", f"validated {pcls.__name__} (ballot_type {T.__name__}) obtained by {how} contains {type(bad[0]).__name__}", impl=[type(b).__name__ for b in bad], expected=T.__name__)
+                    res = None
+    if st["keep"]:
+        profs.append((res if res is not target else None, spec, T))
+
+
 def vworker_main():
     import sys
 
@@ -836,19 +983,20 @@ def self_contained_vcase(histories, idx, site, max_trials=8):
     return histories[: idx + 1]
 
 
-def run_validation_histories(ctx, n):
-    histories = [gen_vhistory(ctx.rng) for _ in range(n)]
+def run_validation_histories(ctx, n, n_derive=0):
+    # the derivation histories are drawn after the inserting ones (whose stream is unchanged) and run after them in the same process
+    histories = [gen_vhistory(ctx.rng) for _ in range(n)] + [gen_vhistory(ctx.rng, derive=True) for _ in range(n_derive)]
     res = run_vworker(histories)
     first = {}
     for idx, (h, r) in enumerate(zip(histories, res)):
         ctx.evaluations += 1
-        ctx.count("stream", "validation_history")
+        ctx.count("stream", "derivation_history" if h.get("derive") else "validation_history")
         ctx.count("v_profiles_per_history", str(sum(1 for s in h["steps"] if s["op"] == "new")))
         for a, b in r["counts"]:
             ctx.count(a, b)
         if vhistory_nontrivial(h):
             ctx.nontrivial.add(("vhist", h["seed"]))
-            ctx.count("v_nontrivial", "two ballot types of one profile class offered the same ballot class")
+            ctx.count("v_nontrivial", "a validating profile with a non-default ballot_type is derived from" if h.get("derive") else "two ballot types of one profile class offered the same ballot class")
         for x in r["viol"]:
             site = (x["sig"]["call"], x["sig"]["check"])
             ctx.count("violation_sites", "%s:%s" % site)
@@ -952,7 +1100,7 @@ def run(ctx):
         ctx.count("violation_sites", "%s:%s" % k)
     ctx.violations = list(first.values())
     # profiles with their own ballot types side by side in one process (predicate only; the table model has no ballot types)
-    run_validation_histories(ctx, ctx.scale(1200, 8000))
+    run_validation_histories(ctx, ctx.scale(1200, 8000), ctx.scale(1500, 8000))
 
 
 def search(ctx, disagreements):
@@ -974,7 +1122,7 @@ def search(ctx, disagreements):
         if len(ctx.violations) >= 5:
             break
     if len(ctx.violations) < 5:
-        run_validation_histories(ctx, 3000)
+        run_validation_histories(ctx, 3000, 3000)
 
 
 def replay(payload):
